@@ -68,6 +68,30 @@ def cases(tier: str, seed: int) -> List[Dict[str, Any]]:
                 fixed[k] = v[0]
         for cfg in lattice(op, 99, fixed=fixed, restrict=restr):
             out.append({"kind": "probe", "op": name, "cfg": cfg, "seed": seed})
+    # requires_grad pattern: one operand frozen at a time (the remaining gradients keep their exact scale)
+    for name, restr in _restr(tier).items():
+        op = OPS[name]
+        fixed = {"dtype": "float64"}
+        if "constraint" in op.coords:
+            fixed["constraint"] = None
+        for k, v in op.coords.items():
+            if k not in restr and k not in fixed:
+                fixed[k] = v[0]
+        for extra in ({}, {"bias": True}, {"weight": True}, {"weight": True, "bias": True}):
+            if any(k not in op.coords for k in extra):
+                continue
+            fx = dict(fixed, **extra)
+            rs = {k: v for k, v in restr.items() if k not in extra}
+            for cfg in lattice(op, 1, fixed=fx, restrict=rs):
+                try:
+                    t_ = op.make(cfg, __import__("torch").Generator().manual_seed(0))
+                except Exception:  # noqa
+                    continue
+                fl = [k for k, v in t_.items() if v.is_floating_point() and k not in ("attn_mask",)]
+                if len(fl) < 2:
+                    continue
+                for fz in fl:
+                    out.append({"kind": "probe", "op": name, "cfg": cfg, "seed": seed, "freeze": fz})
     # history: the same shapes first used in a low-precision dtype (scale factors must not be cached
     # in that precision)
     for name in ("linear", "matmul", "conv1d", "add", "embedding", "mse_loss"):
@@ -138,7 +162,9 @@ def run_case(case: Dict[str, Any]) -> Dict[str, Any]:
             probe(op, dict(cfg, dtype=case["pre_dtype"]), case["seed"], draws=1, gdraws=1)
         except Exception:  # noqa
             pass
-    r = probe(op, cfg, case["seed"], draws=1, gdraws=1)
+    if case.get("freeze"):
+        ident += f"|frozen={case['freeze']}"
+    r = probe(op, cfg, case["seed"], draws=1, gdraws=1, freeze=case.get("freeze", ""))
     if "skipped" in r:
         return {"skipped": r["skipped"]}
     if "unit_exc" in r:
